@@ -3,6 +3,8 @@ C18 — Angles convert, wrap and change coordinates consistently.
 Property theorems, in `namespace Retro.Props.C18`:
   Units  – (ordered field with floor, π a positive parameter) unit conversions, wrap, clamp/min/max
   Coords – (ℝ, Mathlib's sin/cos/sqrt/arg) polar and spherical coordinate changes are inverse
+  WrapF32 – (binary32 bit patterns) `Angle::wrap` lies in the closed interval [min, max]; the pre-fix witness above max
 -/
 import Retro.Props.C18.Units
 import Retro.Props.C18.Coords
+import Retro.Props.C18.WrapF32
